@@ -6,5 +6,6 @@ INVARIANT ReaderAgrees
 INVARIANT PositionalKept
 INVARIANT WalkBounded
 INVARIANT IllFormedPositional
+INVARIANT PackedIsChainStart
 PROPERTY Terminates
 CHECK_DEADLOCK FALSE
